@@ -211,66 +211,19 @@ theorem modPass_keys_nodup (L : List Spec) : ∀ {st st' : MState}, (st.modifyin
     · cases h
     · rename_i st1 h1; exact ih (hsteps _ hnd h1) h
 
-theorem modInv_spec (modifier : List (String × Node)) (n : Node) :
-    (∀ p, modInv modifier n = some p → (p, n) ∈ modifier) ∧
-    ((∃ p, (p, n) ∈ modifier) → (modInv modifier n).isSome) := by
-  unfold modInv
-  -- generalise the accumulator
-  have : ∀ (l : List (String × Node)) (acc : Option String),
-      (∀ p, l.foldl (fun acc pm => if pm.2 = n then some pm.1 else acc) acc = some p → (p, n) ∈ l ∨ acc = some p) ∧
-      (((∃ p, (p, n) ∈ l) ∨ acc.isSome) → (l.foldl (fun acc pm => if pm.2 = n then some pm.1 else acc) acc).isSome) := by
-    intro l
-    induction l with
-    | nil => intro acc; simp
-    | cons e l ih =>
-      intro acc
-      obtain ⟨q, m⟩ := e
-      simp only [List.foldl_cons]
-      obtain ⟨h1, h2⟩ := ih (if m = n then some q else acc)
-      constructor
-      · intro p hp
-        rcases h1 p hp with h | h
-        · left; exact List.mem_cons_of_mem _ h
-        · by_cases hm : m = n
-          · subst hm; simp only [if_true, Option.some.injEq] at h; subst h; left; simp
-          · simp only [hm, if_false] at h; right; exact h
-      · intro h
-        apply h2
-        rcases h with ⟨p, hp⟩ | h
-        · rcases List.mem_cons.mp hp with h' | h'
-          · right; cases h'; simp
-          · left; exact ⟨p, h'⟩
-        · right
-          by_cases hm : m = n
-          · simp [hm]
-          · simp [hm, h]
-  obtain ⟨h1, h2⟩ := this modifier none
-  exact ⟨fun p hp => (h1 p hp).resolve_right (by simp), fun h => h2 (Or.inl h)⟩
-
-theorem modProps_mem {all : Bool} {modifier : List (String × Node)} {n : Node} {p : String}
-    (h : p ∈ modProps all modifier n) : (p, n) ∈ modifier := by
+theorem modProps_mem {modifier : List (String × Node)} {n : Node} {p : String}
+    (h : p ∈ modProps modifier n) : (p, n) ∈ modifier := by
   unfold modProps at h
-  split at h
-  · simp only [List.mem_map, List.mem_filter, decide_eq_true_eq] at h
-    obtain ⟨⟨q, m⟩, ⟨hm, hn⟩, hp⟩ := h
-    simp only at hn hp
-    subst hn hp; exact hm
-  · cases hmi : modInv modifier n with
-    | none => rw [hmi] at h; simp at h
-    | some q =>
-      rw [hmi] at h
-      simp only [Option.toList_some, List.mem_singleton] at h
-      subst h
-      exact (modInv_spec modifier n).1 _ hmi
+  simp only [List.mem_map, List.mem_filter, decide_eq_true_eq] at h
+  obtain ⟨⟨q, m⟩, ⟨hm, hn⟩, hp⟩ := h
+  simp only at hn hp
+  subst hn hp; exact hm
 
-theorem modInv_mem_modProps (all : Bool) {modifier : List (String × Node)} {n : Node} {p : String}
-    (h : modInv modifier n = some p) : p ∈ modProps all modifier n := by
+theorem mem_modProps {modifier : List (String × Node)} {n : Node} {p : String}
+    (h : (p, n) ∈ modifier) : p ∈ modProps modifier n := by
   unfold modProps
-  split
-  · have := (modInv_spec modifier n).1 p h
-    simp only [List.mem_map, List.mem_filter, decide_eq_true_eq]
-    exact ⟨(p, n), ⟨this, rfl⟩, rfl⟩
-  · rw [h]; simp
+  simp only [List.mem_map, List.mem_filter, decide_eq_true_eq]
+  exact ⟨(p, n), ⟨h, rfl⟩, rfl⟩
 
 theorem user_mem_userNodes {S : List Spec} {s : Spec} (h : s ∈ S) : Node.user s.name ∈ userNodes S :=
   List.mem_map.mpr ⟨s, h, rfl⟩
